@@ -32,7 +32,7 @@ package main
 //     unterminated-string  the literal's opening quote, or the place where it breaks off (its last rune,
 //                          or the newline / the end of input right after it)
 //   run time (one failing operation, everything else succeeds or is guarded)
-//     div-zero, dyn-binop, dyn-in-range, bad-regex   the operator
+//     div-zero, dyn-binop, dyn-in, bad-regex         the operator
 //     dyn-unop                                      the unary operator
 //     index-range, slice-range                      the `[`
 //     nil-field, any-field, nil-method, method-panic  the member name
@@ -664,8 +664,6 @@ func (o *c13Orc) judge(cs *c13Case, rep c13Report) {
 		switch {
 		case got.line == 0 && got.col == 0 && (cs.kind == "cond-nonbool-rt"):
 			viol("c13:conditional-no-location", "run-time failure of a conditional's condition is reported at 0:0 (ConditionalNode has no location)")
-		case got.line == 0 && got.col == 0 && cs.kind == "dyn-in-range":
-			viol("c13:inrange-rewrite-no-location", "failure inside the comparison created by the in-range rewrite is reported at 0:0")
 		case got.line == 0 && got.col == 0:
 			viol("c13:zero-location:"+cs.kind, "error reported at 0:0, outside the source")
 		case o.isLexAfter(cs, got):
@@ -1155,7 +1153,7 @@ func (o *c13Orc) syntaxFault(kind string, seed int64) bool {
 // ---- run-time oracle ---------------------------------------------------------------------------
 
 var c13RunKinds = []string{"div-zero", "index-range", "slice-range", "nil-field", "nil-method", "any-field", "func-panic", "method-panic",
-	"cond-nonbool-rt", "dyn-binop", "dyn-unop", "dyn-in-range", "dyn-len", "dyn-builtin-coll", "closure-nonbool", "bad-regex"}
+	"cond-nonbool-rt", "dyn-binop", "dyn-unop", "dyn-in", "dyn-len", "dyn-builtin-coll", "closure-nonbool", "bad-regex"}
 
 // failing atom: returns (node, occurrence nodes accepted, description); typ is its static type for wrapping
 func (o *c13Orc) failingAtom(kind string, g *c13Gen) (*c13Node, func() []c13Pos, string) {
@@ -1221,9 +1219,10 @@ func (o *c13Orc) failingAtom(kind string, g *c13Gen) (*c13Node, func() []c13Pos,
 		}
 		n := c13Un("bool", g.pick("not", "!"), c13Id("any", "AnyI"))
 		return n, one(n), "the unary not applied to an int"
-	case "dyn-in-range":
-		n := c13Bin("bool", g.pick("in", "not in"), c13Id("any", "Any"), c13Bin("ints", "..", c13Lit("int", "1"), c13Lit("int", "3")))
-		return n, one(n), "the operator " + n.text + " (string in a literal range)"
+	case "dyn-in":
+		// (the in-range rewrite of `x in 1..3` is type-guarded since fix 072d9f0 and cannot fail any more)
+		n := c13Bin("bool", g.pick("in", "not in"), g.gen("int", 1), c13Id("any", "AnyI"))
+		return n, one(n), "the operator " + n.text + " whose right operand is an int, not a collection"
 	case "dyn-len":
 		n := c13Builtin("int", "len", c13Id("any", "AnyI"))
 		return n, one(n), "the builtin name len applied to an int"
@@ -1415,16 +1414,7 @@ func (o *c13Orc) runtimeFault(kind string, seed int64) bool {
 		tokStarts[c13PosOfTok(t)] = true
 	}
 	o.locMap(cs, prog, tokStarts, "optimized")
-	mayNotFail := kind == "dyn-in-range"
-	run := func(api string, f func() error) {
-		if mayNotFail && api != "Compile+Run" {
-			// `x in 1..3` on a non-number fails only in its optimised form (the unoptimised `in` yields false:
-			// a transparency matter, property C02); whatever happens afterwards is not this oracle's subject
-			r.Count("rt:skipped:"+kind+":"+api, 1)
-			return
-		}
-		o.judge(cs, c13Call(api, f))
-	}
+	run := func(api string, f func() error) { o.judge(cs, c13Call(api, f)) }
 	run("Compile+Run", func() error { _, err := expr.Run(prog, env); return err })
 	run("Eval", func() error { _, err := expr.Eval(src, env); return err })
 	if p2, err := expr.Compile(src, expr.Env(env), expr.Optimize(false)); err == nil {
@@ -1477,15 +1467,6 @@ func (o *c13Orc) fixed() {
 		func() error { _, err := parser.Parse("1 @ 2"); return err })
 	one("binop-operand", "1 + 'a'", "the operator +", []c13Pos{{1, 2}}, "Compile+AsBool",
 		func() error { _, err := expr.Compile("1 + 'a'", expr.Env(env), expr.AsBool()); return err })
-	one("dyn-in-range", "Any in 1..3", "the operator in", []c13Pos{{1, 4}}, "Compile+Run",
-		func() error {
-			p, err := expr.Compile("Any in 1..3", expr.Env(env))
-			if err != nil {
-				return err
-			}
-			_, err = expr.Run(p, env)
-			return err
-		})
 }
 
 // c13RunAPI runs one entry point by the name used in the reports
